@@ -18,6 +18,11 @@ PROPS = {
         "trusted_base": ["url.QueryEscape re-implemented in the model (compared per byte and on all BMP runes)", "unicode/utf8 decoding re-implemented in the model (Utf8.decode)", "Go regexp: striptags' pattern re-implemented as a matcher; removetags judged by a direct oracle only"],
         "assumptions": ["filters are modelled as byte-string functions and compared with ApplyFilter on every BMP rune (stride in quick), all single bytes, astral runes, all pairs/triples over the special characters and random strings"],
     },
+    "C18": {
+        "suites": [{"name": "c18-win", "proj": ["filter"]}],
+        "trusted_base": ["Lean Float (IEEE binary64) for float results; exact %f/%.nf formatter written on Float.toBits", "strconv.ParseFloat modelled for plain decimals only", "strings.Fields/ToUpper/ToLower modelled for ASCII (non-ASCII inputs answered 'unsupported' and not compared)", "date/stringformat/title/linebreaks/urlize*/random/phone2numeric not modelled"],
+        "assumptions": ["exhaustive integer windows per filter (see rule) plus random cases, compared with the Lean model; Python-slice, padding-shape, truncatechars, get_digit, floatformat and exact-rational widthratio references run as model-free oracles"],
+    },
     "C16": {
         "suites": [
             {"name": "lex", "proj": ["positions", "panic"]},
